@@ -74,12 +74,19 @@ def make_storage(spec, counters):
         return frozenset(base) | frozenset(int(h, 16) for h in extra)
       return base
 
+    def _ctor_fault(self, which):
+      if spec.get("ctor_fail") == which and counters.get("armed"):
+        counters["fired"] = counters.get("fired", 0) + 1
+        raise IOError("simulated storage failure in %s" % which)
+
     def GetKeypairData(self):
+      self._ctor_fault("keypair")
       if spec.get("keypair") == "empty":
         return data_pb2.KeypairData()
       return default.GetKeypairData()
 
     def GetOpensslDenylist(self):
+      self._ctor_fault("deny")
       return set(spec.get("deny", []))
 
   return SimStorage()
